@@ -29,7 +29,7 @@ def main():
     else:
         head = subprocess.run("git -C /repo rev-parse HEAD", shell=True, capture_output=True, text=True).stdout.strip()
         sh(f"git checkout -q --detach {head}")
-    props = sys.argv[1:] or sorted(os.path.basename(p) for p in glob.glob("/tmp/mut/C??"))
+    props = sys.argv[1:] or sorted(os.path.basename(p) for p in glob.glob(os.environ.get("MUT_ROOT","/tmp/mut")+"/C??"))
     done = set()
     if os.path.exists(RES):
         for l in open(RES):
@@ -38,7 +38,7 @@ def main():
             except Exception: pass
     head = subprocess.run("git -C /repo rev-parse --short HEAD", shell=True, capture_output=True, text=True).stdout.strip()
     for prop in props:
-        for patch in sorted(glob.glob(f"/tmp/mut/{prop}/_mutants/m*.patch.diff")):
+        for patch in sorted(glob.glob(os.environ.get("MUT_ROOT","/tmp/mut")+f"/{prop}/_mutants/m*.patch.diff")):
             m = os.path.basename(patch).split(".")[0]
             if (prop, m, head) in done: continue
             base = patch[:-len(".patch.diff")]
